@@ -8,6 +8,7 @@ Observe: the instance fonts; deep snapshots of every source font and of the desi
 Oracle: closed-form blend weights (vf/ref/varmodel.py, exact rationals) applied to the master
 descriptions; an independent "rename" model of rule swaps; before == after for the sources.
 """
+import copy
 import json
 import os
 import traceback
@@ -151,7 +152,35 @@ def gen(rng, idx, tier):
         _avoid_negative_half_kerning(rng, case)
     n = len(case["locations"])
     case["repeat"] = sorted(rng.sample(range(n), min(n, rng.choice([1, 2, 3]))))
+    # the default source may point at a NAMED layer of its UFO (<source layer="final">): glyphs
+    # come from that layer, kerning / groups / info / lib still from the font
+    case["layered_default"] = rng.random() < 0.1
     return case
+
+
+def layer_default_source(ds):
+    """Build-time variant of ds: the default source's glyphs live in the layer 'final' of its UFO
+    (the UFO's default layer holds displaced copies that must never be read)."""
+    ds = copy.deepcopy(ds)
+    si = masters.default_source_index(ds)
+    src = ds["sources"][si]
+    if src.get("layerName"):
+        return ds
+    u = ds["ufos"][src["ufo"]]
+    real = u["glyphs"]
+    junk = copy.deepcopy(real)
+    for g in junk:
+        g["width"] = g["width"] + 111
+        for c in g["contours"]:
+            for p in c:
+                p[0] += 37
+                p[1] -= 53
+        for a in g["anchors"]:
+            a["x"] += 41
+    u["glyphs"] = junk
+    u.setdefault("layers", {})["final"] = real
+    src["layerName"] = "final"
+    return ds
 
 
 def _f(v):
@@ -765,7 +794,11 @@ def run(case):
     bump = J.bump
     meta = ds.get("meta") or {}
     ref = Reference(ds)
-    doc, fonts = build_designspace(ds, case["lib"])
+    if case.get("layered_default"):
+        doc, fonts = build_designspace(layer_default_source(ds), case["lib"])
+        bump("layered_default_source_cases")
+    else:
+        doc, fonts = build_designspace(ds, case["lib"])
     descs = []
     for k, L in enumerate(case["locations"]):
         if L["via"] == "designLocation":
